@@ -245,11 +245,12 @@ def _loop_counts_up_from_zero(loops, key):
     return False
 
 
-def value_set(fn, env, key, guard):
+def value_set(fn, env, key, guard, expr=None):
     """Finite value set of a never-reassigned local whose definition depends on one parameter with a small guarded
-    range (constant propagation over <= 256 values), else None."""
+    range (constant propagation over <= 256 values), else None.  (expr: evaluate this expression instead of a local's
+    definition.)"""
     from . import ranges
-    d = env.definition((key,))
+    d = expr if expr is not None else env.definition((key,))
     if d is None:
         return None
     params = set()
@@ -268,8 +269,16 @@ def value_set(fn, env, key, guard):
     lo, hi = ranges.Ctx(guard, env, None, ()).refine("p:%s" % pn, tr[0], tr[1])
     if hi - lo > 255:
         return None
+    excluded = set()
+    for a in conjuncts(guard):
+        if a[0] == "cmp" and a[1] == "!=" and ("p:%s" % pn) in (a[2], a[3]):
+            other = a[3] if a[2] == "p:%s" % pn else a[2]
+            if str(other).lstrip("-").isdigit():
+                excluded.add(int(other))
     out = set()
     for v in range(lo, hi + 1):
+        if v in excluded:
+            continue
         try:
             out.add(minieval.ev(unwrap(d), {"p:%s" % pn: v}))
         except minieval.Unknown:
@@ -351,6 +360,16 @@ def window_proofs(fn):
                                 bound = int(other) + (1 if a[1] == "<" else 0)
                     if bound is None:
                         vals = value_set(fn, env, L, g)
+                        if vals is None:
+                            # the bound written out as an expression over one parameter (`1 << (item_length - 24)`)
+                            for t_ in tests:
+                                cu = unwrap_all_casts(t_.get("cond"))
+                                if isinstance(cu, dict) and cu.get("k") == "Bin" and cu.get("op") in (">=", "<=", ">", "<"):
+                                    for side in (cu.get("lhs"), cu.get("rhs")):
+                                        if isinstance(side, dict) and int_key(side, env) == L:
+                                            vals = value_set(fn, env, L, g, expr=unwrap_all_casts(side))
+                                if vals is not None:
+                                    break
                         if vals:
                             for b in atoms:
                                 if b[0] == "cmp" and b[1] == "!=" and L in (b[2], b[3]):
@@ -361,6 +380,17 @@ def window_proofs(fn):
                                 bound = min(vals) + (1 if a[1] == "<" else 0)
         if bound is None:
             continue
+        # m_p[i] with i < K for a number K that the window test covers
+        for d in ir.walk(st):
+            if d.get("k") == "Index" and path(d.get("base")) == ("this", "m_p") and const_value(d.get("idx")) is None:
+                ik = int_key(d.get("idx"), env)
+                ks = [int(a[3]) for a in atoms if a[0] == "cmp" and a[1] == "<" and a[2] == ik and str(a[3]).isdigit()]
+                nonneg = (unwrap(d.get("idx")) or {}).get("t", "").startswith("unsigned") or _loop_counts_up_from_zero(loops, ik)
+                anc = [t for t in tests if any(x is d for x in ir.walk(t.get("then")))]
+                if ks and nonneg and anc and min(ks) <= bound:
+                    t0 = max(order[id(t)] for t in anc)
+                    if not any(t0 < m < order[id(d)] for m in moves):
+                        out[id(d)] = "index %s is below %d, and the enclosing window test guarantees %d bytes" % (ik, min(ks), bound)
         for d in ir.walk(st):
             dk = is_mp_deref(d)
             if dk is None or dk[1] is None:
